@@ -164,6 +164,8 @@ class SX:
         self.static_exit = static_exit       # callable(fn, loop) -> every exit test of the loop is loop-invariant
         self.pure_by_args = set(pure_by_args)    # pure externals whose result symbol is named by the argument values
         self.models = models or {}           # callee -> f(sx, st, fn, inst, args) -> value | None
+        self.prune = True                    # drop constraints that no live value depends on (set False to keep the
+                                             # whole path condition, e.g. facts about bytes already consumed)
         self.alloca_size = {}
         self.digit_probes = []               # (fn name, stored value, remainder value, state) from the digit loop body
         self.store_log = None
@@ -636,7 +638,7 @@ class SX:
             return [st]
         if callee == 'strnlen':
             p, n = args[0], args[1]
-            st.events = st.events + (('scan', 'strnlen', vkey(p), fn.name, vkey(n)),)
+            st.events = st.events + (('scan', 'strnlen', vkey(p), fn.name, vkey(n), n if isinstance(n, Lin) else None),)
             cn = self.const_strlen(p)
             if cn is not None:
                 ln = Lin(cn)
@@ -680,6 +682,9 @@ class SX:
             raise AnalysisBroken('c06_sx: call of %s from %s has no summary' % (callee, fn.name))
         if callee not in PURE_EXTERNALS:
             self.unknown_calls.setdefault(callee, i.where())
+        for a in args:
+            if isinstance(a, P) and a.base in self.cstr:
+                st.events = st.events + (('scan', callee, vkey(a), fn.name),)
         # pure external: the result is a function of the arguments; out-parameters into allocas are forgotten
         for a in args:
             if isinstance(a, P) and a.base[0] == 'a':
@@ -757,6 +762,11 @@ class SX:
                 self.store_log.append((i, p, v, st))
             if isinstance(p, P) and p.base[0] == 'a':
                 sz = i.d.get('store_size', 0)
+                tot = self.alloca_size.get(p.base)
+                if tot is not None and sz:
+                    ok = st.cons.entails_le(0, p.off) and st.cons.entails_le(p.off + sz, tot)
+                    self.oblige('local-store', fn, 'store into the %d-byte local buffer stays inside' % tot, ok, i.where(),
+                                None if ok else 'a %d-byte store at offset %r of a %d-byte local object' % (sz, p.off, tot))
                 if p.off.is_const():
                     c = p.off.c
                     for k in [k for k in st.mem if k[0] == p.base and k[1] < c + sz and c < k[1] + k[2]]:
@@ -941,9 +951,10 @@ class SX:
         for (_, v) in st.mem.items():
             lin_syms(v, syms)
         items.sort(key=repr)
-        c = cone(st.cons.items, syms)
-        if len(c) != len(st.cons.items):
-            st.cons = Cons(c)
+        if self.prune:
+            c = cone(st.cons.items, syms)
+            if len(c) != len(st.cons.items):
+                st.cons = Cons(c)
         return (tuple(items), frozenset(st.cons.keys), st.E.key(), vkey(st.segs), st.events, st.notes,
                 tuple(sorted(((k, vkey(v)) for k, v in st.mem.items()), key=repr)))
 
